@@ -411,3 +411,170 @@ def drv_b64(case):
         Q2 = pnd.ge_polyhedron_config.from_b64(sp)
         out.append({"op": "b64poly", "p_before": pP, "p_after": pQ1, "p_again": proj.cfgpoly(Q2, tok), "sel_before": sP, "sel_after": sQ})
     return out
+
+# ============================================================================= polyhedra (C11, C12, C19, C20)
+def _poly(case):
+    """fresh ge_polyhedron for case = {"rows": [[b, a1..an], ...], "bounds": [[lo,hi],...]} (+ optional ids / index ids)"""
+    import numpy, puan, puan.ndarray as pnd
+    ids = case.get("ids") or ["x%d" % (j + 1) for j in range(len(case["bounds"]))]
+    vs = [puan.variable.support_vector_variable()] + [puan.variable(i, tuple(b)) for i, b in zip(ids, case["bounds"])]
+    idx = case.get("index")
+    arr = numpy.array(case["rows"], dtype=numpy.int64).reshape(len(case["rows"]), len(vs))
+    kw = {"index": [puan.variable(i, (0, 1)) for i in idx]} if idx else {}
+    return pnd.ge_polyhedron(arr, variables=vs, **kw)
+
+def _pp(P, tok):
+    rows, cols = proj.polyhedron(P, tok)
+    return {"rows": rows, "cols": cols, "index": [tok(getattr(v, "id", v)) for v in list(P.index)]}
+
+def _cv(vec):
+    import numpy
+    v = numpy.asarray(vec, dtype=float)
+    fixed = (~numpy.isnan(v)).tolist()
+    return fixed, [int(x) if f else 0 for x, f in zip(v.tolist(), fixed)]
+
+def drv_poly_reduce(case):
+    import numpy, puan, puan.ndarray as pnd
+    tok = proj.Tok()
+    P = _poly(case)
+    base = _pp(P, tok)
+    out = []
+    # one shot, with the loop's hook events
+    del puan._verif.events[:]
+    rr, cc = P.reducable_rows_and_columns()
+    hooks = list(puan._verif.events)
+    del puan._verif.events[:]
+    red = P.reduce(rr, cc)
+    steps = []
+    fixed, val = [False] * len(base["cols"]), [0] * len(base["cols"])
+    for kind, f in hooks:
+        if kind == "reduce_cols":
+            fixed, val = _cv(f["full_cols"])
+        if kind in ("reduce_cols", "reduce_rows"):
+            s = _pp(f["M"], tok)
+            steps.append({"kind": kind, "rows": s["rows"], "cols": s["cols"], "fixed": fixed, "val": val})
+    fx, vl = _cv(cc)
+    out.append(dict(base, op="reduce_oneshot", full_rows=[proj.I(x) for x in numpy.asarray(rr).tolist()], fixed=fx, val=vl,
+                    reduced=_pp(red, tok), steps=steps, after=_pp(P, tok), model=base))
+    # the public sub-operations, through the class and through the module level aliases
+    Q = _poly(case)
+    use_alias = bool(case.get("k", 0) % 2)
+    r1 = pnd.reducable_rows(Q) if use_alias else Q.reducable_rows()
+    c1 = pnd.reducable_columns_approx(Q) if use_alias else Q.reducable_columns_approx()
+    fx, vl = _cv(c1)
+    ac = pnd.reduce_columns(Q, c1) if use_alias else Q.reduce_columns(c1)
+    ar = pnd.reduce_rows(Q, r1) if use_alias else Q.reduce_rows(r1)
+    out.append(dict(base, op="reduce_ops", red_rows=[proj.I(x) for x in numpy.asarray(r1).tolist()], fixed=fx, val=vl,
+                    after_cols=_pp(ac, tok), after_rows=_pp(ar, tok), after=_pp(Q, tok), model=base))
+    return out
+
+def drv_tighten(case):
+    import numpy
+    tok = proj.Tok()
+    P = _poly(case)
+    base = _pp(P, tok)
+    out = []
+    calls = ["tight", "rowb", "colb", "ncomb"]
+    k = case.get("k", 0)
+    order = calls[k % 4:] + calls[:k % 4]
+    for rnd in range(2):                      # the SAME object is queried twice, in a rotated order
+        res = {}
+        for c in order:
+            if c == "tight": res[c] = [[proj.I(x) for x in row] for row in numpy.asarray(P.tighten_column_bounds()).tolist()]
+            elif c == "rowb": res[c] = [[proj.I(x) for x in row] for row in numpy.asarray(P.row_bounds()).tolist()]
+            elif c == "colb": res[c] = [[proj.I(x) for x in row] for row in numpy.asarray(P.column_bounds()).tolist()]
+            else: res[c] = [proj.I(x) for x in numpy.asarray(P.n_row_combinations).tolist()]
+        out.append(dict(base, op="tighten", round=rnd, order=order, tight=res["tight"], rowb=res["rowb"], colb=res["colb"],
+                        ncomb=res["ncomb"], after=_pp(P, tok), model=base))
+    return out
+
+def _nest(a):
+    import numpy
+    return [[proj.I(x) for x in r] if isinstance(r, list) and (not r or not isinstance(r[0], list)) else _nest(r) for r in a] \
+        if a and isinstance(a[0], list) else [proj.I(x) for x in a]
+
+def drv_classify(case):
+    import numpy, puan.ndarray as pnd
+    tok = proj.Tok()
+    P = _poly(case)
+    base = _pp(P, tok)
+    out = []
+    for pts in case["points"]:
+        arr = numpy.array(pts, dtype=numpy.int64)
+        sat = P.ineqs_satisfied(arr)
+        sep = P.separable(arr)
+        rowsep = P.ineq_separate_points(arr)
+        def lst(x):
+            x = numpy.asarray(x)
+            return proj.I(x) if x.ndim == 0 else _nest((x * 1).tolist())
+        out.append({"op": "classify", "rows": base["rows"], "cols": base["cols"], "ndim": int(arr.ndim), "points": pts,
+                    "sat": lst(sat), "sep": lst(sep), "rowsep": lst(rowsep),
+                    "shape_sat": list(numpy.asarray(sat).shape), "shape_sep": list(numpy.asarray(sep).shape),
+                    "shape_rowsep": list(numpy.asarray(rowsep).shape)})
+    return out
+
+def _real_id(x):
+    """spec id tokens -> real ids of various Python types (non-string and unicode ids are legitimate)"""
+    return {"n7": 7, "uml": "üß", "fz": frozenset({"q"})}.get(x, x)
+
+def drv_bridge(case):
+    import numpy, puan, puan.ndarray as pnd
+    tok = proj.Tok()
+    vs = [puan.variable(_real_id(v["id"]), (v["lo"], v["hi"])) for v in case["vars"]]
+    pv = [{"id": tok(v.id), "lo": proj.I(v.bounds.lower), "hi": proj.I(v.bounds.upper)} for v in vs]
+    arr = pnd.variable_ndarray(numpy.zeros((1, len(vs)), dtype=numpy.int64), variables=vs)
+    d = {_real_id(k): v for k, v in case["dict"].items()}
+    out = []
+    for kind in ("lower", "nan", "fn"):
+        if kind == "lower":
+            res = arr.construct(dict(d)); fn = {}
+        elif kind == "nan":
+            res = arr.construct(dict(d), dtype=numpy.float64); fn = {}
+        else:
+            fn = {v.id: 10 + j for j, v in enumerate(vs)}
+            res = arr.construct(dict(d), default_value=lambda v: fn[v.id])
+        r = [[1, 0] if (isinstance(x, float) and x != x) else [0, proj.I(x)] for x in numpy.asarray(res).tolist()]
+        out.append({"op": "construct", "vars": pv, "dict": [[tok(k), proj.I(v)] for k, v in d.items()], "kind": kind,
+                    "fnvals": [[tok(k), v] for k, v in fn.items()], "res": r, "dtype": str(numpy.asarray(res).dtype)})
+    out.append({"op": "partition", "vars": pv, "bool_idx": [proj.I(x) for x in numpy.asarray(arr.boolean_variable_indices).tolist()],
+                "int_idx": [proj.I(x) for x in numpy.asarray(arr.integer_variable_indices).tolist()]})
+    ctx = [v.id for v in vs]
+    lst = [_real_id(x) for x in case["list"]]
+    lsts = [lst, list(reversed(lst)), lst[:1]]
+    b1 = pnd.boolean_ndarray.from_list(lst, ctx) if lst else None
+    i1 = pnd.integer_ndarray.from_list(lst, ctx) if lst else None
+    ev = {"op": "lists", "vars": pv, "ctx": [tok(x) for x in ctx], "lst": [tok(x) for x in lst],
+          "bool_arr": [proj.I(x) for x in numpy.asarray(b1).tolist()] if lst else [0] * len(ctx),
+          "int_arr": [proj.I(x) for x in numpy.asarray(i1).tolist()] if lst else [0] * len(ctx)}
+    if not lst:
+        ev["bool_arr"] = [0] * len(ctx); ev["int_arr"] = [0] * len(ctx)
+        ev["empty_bool"] = numpy.asarray(pnd.boolean_ndarray.from_list([], ctx)).tolist() == []
+    nl = [l for l in lsts if l]
+    if nl:
+        bn = pnd.boolean_ndarray.from_list([list(l) for l in nl], ctx)
+        inn = pnd.integer_ndarray.from_list([list(l) for l in nl], ctx)
+        ev["lsts"] = [[tok(x) for x in l] for l in nl]
+        ev["bool_nested"] = _nest(numpy.asarray(bn).tolist()); ev["int_nested"] = _nest(numpy.asarray(inn).tolist())
+    else:
+        ev["lsts"] = []; ev["bool_nested"] = []; ev["int_nested"] = []
+    # to_list: the variables at the 1-entries
+    bits = [case["bits"][j % len(case["bits"])] for j in range(len(vs))] if case.get("bits") else [1] * len(vs)
+    ba = pnd.boolean_ndarray(numpy.array(bits, dtype=numpy.int64), variables=vs)
+    ev["arr"] = bits
+    ev["to_list"] = [tok(v.id) for v in ba.to_list()]
+    arrs = [bits, [1 - x for x in bits]]
+    ba2 = pnd.boolean_ndarray(numpy.array(arrs, dtype=numpy.int64), variables=vs)
+    ev["arrs"] = arrs
+    ev["to_list_nested"] = [[tok(v.id) for v in l] for l in ba2.to_list()]
+    out.append(ev)
+    # A / b split of a polyhedron over these variables (first one plays the support column)
+    if len(vs) >= 2:
+        mat = [[(3 * i + 2 * j) % 5 - 2 for j in range(len(vs))] for i in range(2)]
+        P = pnd.ge_polyhedron(numpy.array(mat, dtype=numpy.int64), variables=vs, index=[puan.variable("r1"), puan.variable("r2")])
+        A, b = P.A, P.b
+        lA, lb = P.to_linalg()
+        out.append({"op": "split_Ab", "matrix": mat, "vars": [x["id"] for x in pv], "index": [tok("r1"), tok("r2")],
+                    "A": _nest(numpy.asarray(A).tolist()), "b": [proj.I(x) for x in numpy.asarray(b).tolist()],
+                    "A_vars": [tok(v.id) for v in list(A.variables)], "A_index": [tok(v.id) for v in list(A.index)],
+                    "linalg_A": _nest(numpy.asarray(lA).tolist()), "linalg_b": [proj.I(x) for x in numpy.asarray(lb).tolist()]})
+    return out
